@@ -686,3 +686,61 @@ def run_mi_symmetry(ctx: Ctx) -> None:
                             return False, f"{name}(a, b) != {name}(b, a) ({what}, num_bins={bins}; ranges of a and b differ)"
                     return True, ""
                 _guard(ctx, "T16.mi-symmetry", f"{name}:pair{k}:bins={bins}", f, f"loss={name} image pair {k} num_bins={bins}", th)
+
+
+def run_wlcc(ctx: Ctx) -> None:
+    """Weighted local correlation (wlcc_loss / WLCC): symmetry, repeatability with reused mask tensors, reductions, reduction to lcc."""
+    prog = ctx.prog
+    L = "deepali.losses.functional"
+    f = prog.func(L, "wlcc_loss")
+    fl = prog.func(L, "lcc_loss")
+    ctx.fn(f)
+    ctx.rule("T16.wlcc", "wlcc_loss with epsilon = 0 on concrete rational images and positive float masks (3x3 and 3x3x3 windows clipped by the "
+                         "border): wlcc(s, t, ms, mt) = wlcc(t, s, mt, ms) with the *same* mask tensors reused across the calls (a loss that "
+                         "writes into its mask arguments is not repeatable); a second identical call returns the same value; identical images "
+                         "and masks score 0; 'mean' / 'sum' are the masked mean / sum of 'none'; an intensity map a*x + b of the source changes "
+                         "nothing; with unit masks it equals lcc_loss")
+    for D in (2, 3):
+        def th(D=D):
+            reset_relations()
+            fresh_facts()
+            it = make_interp(ctx)
+            n = 3 ** D
+            shape = [1, 1] + [3] * D
+            s = STensor.from_flat([Fraction((7 * i * i + 3 * i) % 11, 3) for i in range(n)], shape)
+            t = STensor.from_flat([Fraction((5 * i * i + i + 2) % 13, 5) for i in range(n)], shape)
+            ms = STensor.from_flat([Fraction(1 + (i % 3), 2) for i in range(n)], shape)
+            mt = STensor.from_flat([Fraction(1 + ((2 * i + 1) % 4), 3) for i in range(n)], shape)
+            ms0, mt0 = ms.clone(), mt.clone()
+            k = dict(kernel_size=3, epsilon=0)
+            a = it.call(f, s, t, source_mask=ms, target_mask=mt, reduction="none", **k)
+            if not teq(ms, ms0) or not teq(mt, mt0):
+                return False, "wlcc_loss modified a mask tensor it was given (later evaluations with the same masks are weighted differently)"
+            b = it.call(f, t, s, source_mask=mt, target_mask=ms, reduction="none", **k)
+            if not teq(a, b):
+                return False, "wlcc(s, t, ms, mt) differs from wlcc(t, s, mt, ms) evaluated with the same mask tensors"
+            a2 = it.call(f, s, t, source_mask=ms, target_mask=mt, reduction="none", **k)
+            if not teq(a2, a):
+                return False, "a second identical call of wlcc_loss returns another value"
+            w = ms.mul(mt)
+            mean = it.call(f, s, t, source_mask=ms, target_mask=mt, reduction="mean", **k)
+            tot = it.call(f, s, t, source_mask=ms, target_mask=mt, reduction="sum", **k)
+            none_sum = sum((to_rat(x) for x in a.flat()), Rat.of(0))
+            if not to_rat(tot.flat()[0]).equals(none_sum):
+                return False, "'sum' is not the sum of the 'none' output"
+            wsum = sum((to_rat(x) for x in w.flat()), Rat.of(0))
+            if not to_rat(mean.flat()[0]).equals(none_sum / wsum):
+                return False, "'mean' is not the sum of the 'none' output divided by the sum of the mask"
+            z = it.call(f, s, s.clone(), source_mask=ms, target_mask=ms.clone(), reduction="none", **k)
+            if not all(to_rat(x).is_zero() for x in z.flat()):
+                return False, "identical images and masks do not score 0"
+            sc = it.call(f, s.mul(-2).add(Fraction(3, 4)), t, source_mask=ms, target_mask=mt, reduction="none", **k)
+            if not teq(sc, a):
+                return False, "an intensity map -2 x + 3/4 of the source changes the weighted local correlation"
+            one = symt.ones(*shape)
+            u = it.call(f, s, t, source_mask=one, target_mask=one.clone(), reduction="none", **k)
+            v = it.call(fl, s, t, reduction="none", **k)
+            if not teq(u, v):
+                return False, "with unit masks wlcc_loss differs from lcc_loss"
+            return True, ""
+        _guard(ctx, "T16.wlcc", f"D={D}", f, f"loss=wlcc_loss D={D}", th)
